@@ -162,10 +162,14 @@ CHECKS = {
         "(C02_reference_cut_signals, C02_reference_call_absorbs). (2) Directly on the machine, for all programs, goals and worlds: "
         "a node that reports a cut is committed (no_backtracking set) - the cut, every enclosing conjunction/disjunction node and "
         "the call that chose the clause; a committed node yields nothing beyond the answer being derived, whatever is asked "
-        "afterwards; a call never reports a cut to its caller. Tie to the code: extracted reference searches as oracles against "
+        "afterwards; a call never reports a cut to its caller (Properties/C02base.v). (3) The textbook law of cut holds of the reference, for every program "
+        "(Properties/C02.v, Proofs/CutOnce.v): running a cut-free goal with a continuation that stops the search is computing its FIRST answer and continuing "
+        "once from it (C02_first_answer); hence a body `g1, !, rest` behaves as once(g1) followed by rest and signals the commit exactly when g1 has an "
+        "answer (C02_cut_is_once); and the call that chose such a clause returns the answers of rest from g1's first answer and consults no later clause, "
+        "whatever and however many they are - or, when g1 has no answer, goes on to the next clause (C02_cut_commits_the_call_reference, _kb). Tie to the code: extracted reference searches as oracles against "
         "the implementation (exact substitution sets) plus model-vs-implementation correspondence with cut at every position of "
         "small bodies.", ref="7/C02",
-   technique="Coq refinement proof (model refines reference search with cut) + Coq proof of the commit invariants (Properties/C02.v) + extracted reference semantics as oracle + model-vs-implementation correspondence"),
+   technique="Coq refinement proof (model refines reference search with cut) + Coq proof of the commit invariants (Properties/C02base.v) and of the law `g1, !, rest = once(g1), rest + commit` (Properties/C02.v) + extracted reference semantics as oracle + model-vs-implementation correspondence"),
  "C03": dict(
    text="PROVED: (1) the engine yields exactly the answers of the reference search Spec/SpecCut.v for every program with not(..) "
         "(C03_refines); there not(G) asks G for its first answer only and continues - once, with the substitution it was entered "
